@@ -29,11 +29,11 @@ func c12Round3(x float64) float64 {
 // special cases live.
 func c12GenN(t *rapid.T, name string, min, max int) int {
 	switch rapid.IntRange(0, 9).Draw(t, name+"_nclass") {
-	case 0, 1, 2:
+	case 0:
 		return rapid.IntRange(min, c12MinInt(max, min+3)).Draw(t, name+"_n")
-	case 3, 4, 5, 6:
+	case 1, 2, 3, 4:
 		return rapid.IntRange(min, c12MinInt(max, 12)).Draw(t, name+"_n")
-	case 7, 8:
+	case 5, 6, 7:
 		return rapid.IntRange(min, c12MinInt(max, 60)).Draw(t, name+"_n")
 	default:
 		return rapid.IntRange(min, max).Draw(t, name+"_n")
